@@ -21,14 +21,33 @@ def noIdsL : List Event → Bool
   | e :: es => e.noIds && noIdsL es
 end
 
-theorem AInv.of_eq {h : Prop} {s s' : St} (a : AInv h s) (h1 : s'.nodes = s.nodes) (h2 : s'.next = s.next) :
+/-! "given identifiers do not look like invented ones": no `_nodeId` starts with `~` -/
+mutual
+def Event.okIds : Event → Bool
+  | .row r => decide (¬ Invented r.nodeUuid)
+  | .openGroup _ _ => true
+  | .closeGroup _ => true
+  | .insert _ body => okIdsL body
+def okIdsL : List Event → Bool
+  | [] => true
+  | e :: es => e.okIds && okIdsL es
+end
+
+/-- what the flags assume of one `_nodeId` -/
+def GivenOk (h : Flags) (given : Str) : Prop := (h.ids → ¬ Invented given) ∧ (h.noGiven → given = [])
+
+/-- what the flags assume of an event / of the event sequence -/
+def EvOk (h : Flags) (e : Event) : Prop := (h.ids → e.okIds = true) ∧ (h.noGiven → e.noIds = true)
+def EvsOk (h : Flags) (es : List Event) : Prop := (h.ids → okIdsL es = true) ∧ (h.noGiven → noIdsL es = true)
+
+theorem AInv.of_eq {h : Flags} {s s' : St} (a : AInv h s) (h1 : s'.nodes = s.nodes) (h2 : s'.next = s.next) :
     AInv h s' := by
   unfold AInv at *; rw [h1, h2]; exact a
 
 /-- an operation that leaves the node arena and the counter alone -/
 def NodesFrame {α} (m : M α) : Prop := ∀ s, wp m s (fun _ s' => s'.nodes = s.nodes ∧ s'.next = s.next)
 
-theorem NodesFrame.astep {h : Prop} {d : Dest} {m : M PUnit} (hm : NodesFrame m) : AStep h d m := by
+theorem NodesFrame.astep {h : Flags} {d : Dest} {m : M PUnit} (hm : NodesFrame m) : AStep h d m := by
   intro s a _
   refine wp_mono (hm s) ?_
   intro _ s' ⟨h1, h2⟩
@@ -49,7 +68,7 @@ theorem appendGroup_frame (g : Nat) (rowId : Str) : NodesFrame (appendGroup g ro
       intro _ s' h; exact h
     · wp_simp
 
-theorem addRowEdge_spec (h : Prop) (d : Dest) (e : Edge) : AStep h d (addRowEdge d e) := by
+theorem addRowEdge_spec (h : Flags) (d : Dest) (e : Edge) : AStep h d (addRowEdge d e) := by
   intro s a hd
   unfold addRowEdge
   wp_simp
@@ -62,7 +81,7 @@ theorem addRowEdge_spec (h : Prop) (d : Dest) (e : Edge) : AStep h d (addRowEdge
     intro fuel
     exact addExit_spec h fuel _ d _ s a hd
 
-theorem noopEdge_spec (h : Prop) (g : Nat) (e : Edge) : AStep h .none (noopEdge g e) := by
+theorem noopEdge_spec (h : Flags) (g : Nat) (e : Edge) : AStep h .none (noopEdge g e) := by
   intro s a _
   unfold noopEdge
   wp_simp
@@ -83,7 +102,7 @@ theorem noopEdge_spec (h : Prop) (g : Nat) (e : Edge) : AStep h .none (noopEdge 
       · wp_simp; exact ⟨a, NExt.refl _⟩
     · wp_simp
 
-theorem parseNoop_spec (h : Prop) (edges : List Edge) (rowId : Str) : AStep h .none (parseNoop edges rowId) := by
+theorem parseNoop_spec (h : Flags) (edges : List Edge) (rowId : Str) : AStep h .none (parseNoop edges rowId) := by
   intro s a _
   unfold parseNoop
   wp_simp [wp_addGrp]
@@ -94,7 +113,7 @@ theorem parseNoop_spec (h : Prop) (edges : List Edge) (rowId : Str) : AStep h .n
   intro _ s2 ⟨a2, e2⟩
   exact ⟨a2, e1.trans e2⟩
 
-theorem gotoEdge_spec (h : Prop) (ed : Edge × Str) : AStep h .none (gotoEdge ed) := by
+theorem gotoEdge_spec (h : Flags) (ed : Edge × Str) : AStep h .none (gotoEdge ed) := by
   intro s a _
   unfold gotoEdge
   wp_simp
@@ -109,13 +128,13 @@ theorem gotoEdge_spec (h : Prop) (ed : Edge × Str) : AStep h .none (gotoEdge ed
     intro i n hn
     exact addRowEdge_spec h _ _ s a ⟨i, n, hn, rfl⟩
 
-theorem parseGoto_spec (h : Prop) (r : Row) : AStep h .none (parseGoto r) := by
+theorem parseGoto_spec (h : Flags) (r : Row) : AStep h .none (parseGoto r) := by
   intro s a _
   unfold parseGoto
   wp_simp
   exact ⟨fun _ => trivial, fun _ => AStep.forM _ _ (fun x _ => gotoEdge_spec h x) s a trivial⟩
 
-theorem mergeRow_spec (h : Prop) (r : Row) (ex : Nat) (act : Str) : AStep h .none (mergeRow r ex act) := by
+theorem mergeRow_spec (h : Flags) (r : Row) (ex : Nat) (act : Str) : AStep h .none (mergeRow r ex act) := by
   intro s a _
   unfold mergeRow
   split
@@ -143,7 +162,7 @@ theorem mergeRow_spec (h : Prop) (r : Row) (ex : Nat) (act : Str) : AStep h .non
                                 next := s.next + 1 } := by
         refine AInvC.set (b' := s.next + 1) a hn rfl ⟨?_, (a.ok ex n hn).dexit, (a.ok ex n hn).cases⟩ ?_ (by omega)
         · exact (a.ok ex n hn).dests
-        · simp only [NodeM.ids, NodeM.tailIds]
+        · simp only [NodeM.fids, NodeM.innerIds, NodeM.tailIds]
           grow_new [tid s.next]
       have e1 : NExt s.nodes (s.nodes.setIfInBounds ex { n with actions := n.actions ++ [(tid s.next, act)] }) :=
         NExt.set hn rfl
@@ -164,7 +183,7 @@ theorem rowAction_spec (r : Row) (s : St) :
   · wp_simp
     exact ⟨0, rfl, Grow.refl _ _ _⟩
 
-theorem newRow_spec (h : Prop) (r : Row) (nodeName : Str) (hid : h → r.nodeUuid = []) :
+theorem newRow_spec (h : Flags) (r : Row) (nodeName : Str) (hid : GivenOk h r.nodeUuid) :
     AStep h .none (newRow r nodeName) := by
   intro s a _
   unfold newRow
@@ -172,14 +191,14 @@ theorem newRow_spec (h : Prop) (r : Row) (nodeName : Str) (hid : h → r.nodeUui
   refine wp_mono (rowAction_spec r s) ?_
   intro act s1 ⟨k1, hb, hg1⟩; subst hb
   refine wp_mono (rowNode_spec r act _) ?_
-  intro n s2 ⟨k2, hb, ⟨hd1, hd2⟩, hc, hg2⟩; subst hb
+  intro n s2 ⟨k2, hb, ⟨hd1, hd2⟩, hc, hg2, hi2⟩; subst hb
   dsimp only at hg2 ⊢
   have a1 : AInvC h (s.nodes.push n) (s.next + k1 + k2) := by
-    refine AInvC.push a ⟨?_, ?_, hc⟩ ?_ (by omega)
+    refine AInvC.push a ⟨?_, ?_, hc⟩ ?_ (fun hh => hi2 (hid.2 hh)) (by omega)
     · intro d hd; rw [hd1 d hd]; trivial
     · rw [hd2]; trivial
     · intro hh
-      exact hg1.trans (hg2 (hid hh)) (by omega) (by omega)
+      exact hg1.trans (hg2 (hid.1 hh)) (by omega) (by omega)
   have e1 : NExt s.nodes (s.nodes.push n) := NExt.push _ _
   refine wp_mono (AStep.forM _ _ (fun x _ => addRowEdge_spec h (.node n.uid) x) _ a1 (DestOk.push_self _ _)) ?_
   intro _ s3 ⟨a3, e3⟩
@@ -188,7 +207,7 @@ theorem newRow_spec (h : Prop) (r : Row) (nodeName : Str) (hid : h → r.nodeUui
   intro _ s5 ⟨a5, e5⟩
   exact ⟨a5, (e1.trans e3).trans e5⟩
 
-theorem actionRow_spec (h : Prop) (r : Row) (hid : h → r.nodeUuid = []) : AStep h .none (actionRow r) := by
+theorem actionRow_spec (h : Flags) (r : Row) (hid : GivenOk h r.nodeUuid) : AStep h .none (actionRow r) := by
   intro s a _
   unfold actionRow
   wp_simp
@@ -197,7 +216,7 @@ theorem actionRow_spec (h : Prop) (r : Row) (hid : h → r.nodeUuid = []) : ASte
   · exact mergeRow_spec h _ _ _ s a trivial
   · exact newRow_spec h _ _ hid s a trivial
 
-theorem parseRow_spec (h : Prop) (r : Row) (hid : h → r.nodeUuid = []) : AStep h .none (parseRow r) := by
+theorem parseRow_spec (h : Flags) (r : Row) (hid : GivenOk h r.nodeUuid) : AStep h .none (parseRow r) := by
   intro s a _
   unfold parseRow
   wp_simp
@@ -207,7 +226,7 @@ theorem parseRow_spec (h : Prop) (r : Row) (hid : h → r.nodeUuid = []) : AStep
   refine AStep.forM _ _ (fun x _ => addRowEdge_spec h _ x) s a ?_
   split <;> trivial
 
-theorem openGroup_spec (h : Prop) (edges : List Edge) (starting : Bool) :
+theorem openGroup_spec (h : Flags) (edges : List Edge) (starting : Bool) :
     AStep h .none (openGroup edges starting) := by
   intro s a _
   unfold openGroup
@@ -216,7 +235,7 @@ theorem openGroup_spec (h : Prop) (edges : List Edge) (starting : Bool) :
   have a' : AInv h { s with groups := s.groups.push (Grp.block []), stack := s.groups.size :: s.stack } := a
   exact parseNoop_spec h _ _ _ a' trivial
 
-theorem closeGroup_spec (h : Prop) (rowId : Str) : AStep h .none (closeGroup rowId) := by
+theorem closeGroup_spec (h : Flags) (rowId : Str) : AStep h .none (closeGroup rowId) := by
   intro s a _
   unfold closeGroup
   wp_simp
@@ -231,7 +250,7 @@ theorem insertEnter_spec (s : St) :
   wp_simp [wp_addGrp]
   simp
 
-theorem insertLeave_spec (h : Prop) (s0 : St) (b : Nat) (r : Row) : AStep h .none (insertLeave s0 b r) := by
+theorem insertLeave_spec (h : Flags) (s0 : St) (b : Nat) (r : Row) : AStep h .none (insertLeave s0 b r) := by
   intro s a _
   unfold insertLeave
   wp_simp
@@ -250,10 +269,12 @@ theorem insertLeave_spec (h : Prop) (s0 : St) (b : Nat) (r : Row) : AStep h .non
   exact ⟨a2, e1.trans e2⟩
 
 mutual
-theorem step_spec (h : Prop) : ∀ e : Event, (h → e.noIds = true) → AStep h .none (step e)
+theorem step_spec (h : Flags) : ∀ e : Event, EvOk h e → AStep h .none (step e)
   | .row r, hid => by
     unfold step
-    exact parseRow_spec h r (fun hh => by have := hid hh; simpa [Event.noIds, List.isEmpty_iff] using this)
+    refine parseRow_spec h r ⟨fun hh => ?_, fun hh => ?_⟩
+    · have := hid.1 hh; simpa [Event.okIds] using this
+    · have := hid.2 hh; simpa [Event.noIds, List.isEmpty_iff] using this
   | .openGroup edges starting, _ => by unfold step; exact openGroup_spec h _ _
   | .closeGroup rowId, _ => by unfold step; exact closeGroup_spec h _
   | .insert r body, hid => by
@@ -263,22 +284,50 @@ theorem step_spec (h : Prop) : ∀ e : Event, (h → e.noIds = true) → AStep h
     refine wp_mono (insertEnter_spec s) ?_
     intro sb s1 ⟨h1, h2⟩
     have a1 : AInv h s1 := a.of_eq h1 h2
-    refine wp_mono (steps_spec h body (fun hh => by have := hid hh; simpa [Event.noIds] using this) s1 a1 trivial) ?_
+    have hb : EvsOk h body :=
+      ⟨fun hh => by have := hid.1 hh; simpa [Event.okIds] using this,
+       fun hh => by have := hid.2 hh; simpa [Event.noIds] using this⟩
+    refine wp_mono (steps_spec h body hb s1 a1 trivial) ?_
     intro _ s2 ⟨a2, e2⟩
     refine wp_mono (insertLeave_spec h _ _ _ s2 a2 trivial) ?_
     intro _ s3 ⟨a3, e3⟩
     exact ⟨a3, by rw [← h1]; exact e2.trans e3⟩
-theorem steps_spec (h : Prop) : ∀ es : List Event, (h → noIdsL es = true) → AStep h .none (steps es)
+theorem steps_spec (h : Flags) : ∀ es : List Event, EvsOk h es → AStep h .none (steps es)
   | [], _ => by unfold steps; exact AStep.pure h _
   | e :: es, hid => by
     intro s a _
     unfold steps
     wp_simp
-    refine wp_mono (step_spec h e (fun hh => by have := hid hh; simp [noIdsL] at this; exact this.1) s a trivial) ?_
+    have he : EvOk h e :=
+      ⟨fun hh => by have := hid.1 hh; simp [okIdsL] at this; exact this.1,
+       fun hh => by have := hid.2 hh; simp [noIdsL] at this; exact this.1⟩
+    have hes : EvsOk h es :=
+      ⟨fun hh => by have := hid.1 hh; simp [okIdsL] at this; exact this.2,
+       fun hh => by have := hid.2 hh; simp [noIdsL] at this; exact this.2⟩
+    refine wp_mono (step_spec h e he s a trivial) ?_
     intro _ s1 ⟨a1, e1⟩
-    refine wp_mono (steps_spec h es (fun hh => by have := hid hh; simp [noIdsL] at this; exact this.2) s1 a1 trivial) ?_
+    refine wp_mono (steps_spec h es hes s1 a1 trivial) ?_
     intro _ s2 ⟨a2, e2⟩
     exact ⟨a2, e1.trans e2⟩
+end
+
+/-! no given identifiers at all ⇒ in particular none that looks invented -/
+mutual
+theorem Event.okIds_of_noIds : ∀ e : Event, e.noIds = true → e.okIds = true
+  | .row r, h => by
+    simp only [Event.noIds, List.isEmpty_iff] at h
+    simp [Event.okIds, h, Invented]
+  | .openGroup _ _, _ => rfl
+  | .closeGroup _, _ => rfl
+  | .insert _ body, h => by
+    simp only [Event.noIds] at h
+    simp only [Event.okIds]; exact okIdsL_of_noIdsL body h
+theorem okIdsL_of_noIdsL : ∀ es : List Event, noIdsL es = true → okIdsL es = true
+  | [], _ => rfl
+  | e :: es, h => by
+    simp only [noIdsL, Bool.and_eq_true] at h
+    simp only [okIdsL, Bool.and_eq_true]
+    exact ⟨Event.okIds_of_noIds e h.1, okIdsL_of_noIdsL es h.2⟩
 end
 
 end Rpft.Compile
